@@ -27,6 +27,10 @@ def Skeleton.pinned : Skeleton where
   bcCloseSetsClosed := true
   bcCloseUnderLock := true
   bcChanCap := 0
+  bcReceiveOneSection := true
+  bcFreeOneSection := true
+  bcCloseOneSection := true
+  bcPublishOneLookupSection := true
   stubCallIdFresh := true
   stubRequestCallIsCallId := true
   stubRequestFunctionIsName := true
@@ -102,6 +106,8 @@ def Skeleton.pinned : Skeleton where
   clCallViaUtilsCall := true
   clLookupUnderLock := true
   clMissingIsError := true
+  clInvokeOutsideLock := true
+  clLockIsMutex := true
   clDeleteUnderLock := true
   clInsertUnderLock := true
   clIdFresh := true
@@ -136,6 +142,7 @@ def Skeleton.pinned : Skeleton where
   stEncodeRequestOnly := true
   stEncodeResponseOnly := true
   stPayloadOpaque := true
+  stHandoffChanCap := 0
   tagReqCall := "call"
   tagReqFunction := "function"
   tagReqArgs := "args"
